@@ -168,6 +168,25 @@ fn content_formats(rep: &mut Report, r: &mut Rng) {
             other => rep.violation("content-format-set-after-raw-add", format!("raw {} then set {:?}: {:?}", prev_id, cf, other.map_err(|p| p.text())), format!("raw {} then {:?}", prev_id, cf)),
         }
     }
+    // the option already spells the format about to be set - padded, and followed by another value
+    for (cf, id) in all.iter() {
+        rep.eval();
+        let res = guard(|| {
+            let mut p = Packet::new();
+            let mut padded = vec![0u8];
+            padded.extend_from_slice(&min_be(*id as u64));
+            padded.truncate(2.max(padded.len().min(2)));
+            let padded = if min_be(*id as u64).len() < 2 { padded } else { min_be(*id as u64) };
+            p.add_option(CoapOption::ContentFormat, padded);
+            p.add_option(CoapOption::ContentFormat, vec![42]);
+            p.set_content_format(*cf);
+            (p.get_content_format(), cf_raw(&p), wire_has_single_cf(&p, *id))
+        });
+        match res {
+            Ok((Some(got), raw, true)) if got == *cf && raw == vec![min_be(*id as u64)] => rep.count("content_format_set_over_same_number"),
+            other => rep.violation("content-format-set-over-same-number", format!("option held a padded encoding of {} plus another value, then set_content_format({:?}): (getter, raw values, wire ok) = {:?}", id, cf, other.map_err(|p| p.text())), format!("{:?}", cf)),
+        }
+    }
     // raw values without a name -> None; over-long -> None
     for id in [1usize, 2, 15, 20, 24, 39, 43, 64, 99, 100, 255, 257, 433, 9999, 10003, 65535] {
         rep.eval();
